@@ -1,1 +1,1786 @@
-//! c11_task (ntpd): not implemented yet.
+//! C11 (daemon level, group gs) + the shared rig of c08_task / c09_task / c10_task / c11_task.
+//!
+//! Subject: the REAL source task of the daemon — `SourceTask::run` in
+//! `ntpd/src/daemon/ntp_source.rs` — i.e. the code that carries out what the library decides
+//! (`NtpSourceAction::{Send, SetTimer, Reset, Demobilize}`): a real connected UDP socket per
+//! poll (re-opened at every `Send`), the poll timer, `MsgForSystem` to the system task, the
+//! published `ObservableSourceState` map, measurement delivery to the `SourceController`.
+//! The library-level state machine itself is the subject of ntp_proto's c08..c11 (groups gd, ge).
+//!
+//! Rig
+//! * The task is built exactly like `SourceTask::spawn` builds it (probe
+//!   `ntp_source::verif_probe::gs::build`, a struct literal as in the crate's own tests) around
+//!   `NtpManager::new_source(..)` — the production constructor — and its private `run` loop is
+//!   polled by the harness on a current-thread tokio runtime whose clock is PAUSED: virtual time
+//!   only moves when the harness advances it (by the duration the task asked its timer for, and
+//!   by 5.5 s for the "late answer" symbol), so the duration handed to the poll timer is read
+//!   exactly (`deadline - now`) and the library's 5 s answer window is under harness control.
+//! * Poll timer = `ManualWait` (the generic `T: Wait` of `run`): fires when the harness says so,
+//!   records every `reset(deadline)`.
+//! * Clock = `SeqClock`: reading k is `BASE + k` seconds, so the send time stamp handed to the
+//!   library can be tied to the request it belongs to.
+//! * Controller = `RecCtl`: records every `handle_measurement` / `set_usable`; desire = min.
+//! * "Server" = a plain `std::net::UdpSocket` on 127.0.0.1:P (P chosen by the kernel), plus
+//!   127.0.0.2:P (other address, same port) and 127.0.0.1:P' (same address, other port). The
+//!   harness reads every datagram the task emits with its own walker and builds answers at byte
+//!   level from the request (48-byte v4 / v5 headers written field by field).
+//! * Real-time nondeterminism is owned by a SENTINEL: after the answers of a poll the harness
+//!   sends a datagram shorter than 48 bytes of a rotating size from the server address; the task
+//!   (rightly) ignores it without calling the library, but logs its size. "Nothing happened" is
+//!   decided when the sentinel has been seen by the task (tracing subscriber of this thread),
+//!   never by a timeout; loopback delivery is in order, so everything sent before it has been
+//!   consumed (or dropped by the kernel: the task's socket is connected). The task never has
+//!   the timer and a datagram ready at the same time, so `select!`'s random branch order is
+//!   never exercised. A real-time dead-man (20 s without the expected event) turns a hang into a
+//!   `task-stuck` violation instead of a hung test.
+//! * One keeper time-stamping socket per process keeps kernel receive time stamping on
+//!   (found by group gq: it is enabled lazily and switched off with the last stamping socket).
+#![allow(dead_code)]
+
+use std::collections::{BTreeMap, HashMap};
+use std::future::Future;
+use std::net::{IpAddr, Ipv4Addr, SocketAddr, UdpSocket};
+use std::pin::Pin;
+use std::sync::atomic::{AtomicU32, AtomicU64, Ordering};
+use std::sync::{Arc, Mutex, RwLock};
+use std::task::{Context, Poll};
+use std::time::Duration;
+
+use ntp_proto::{
+    ClockId, Measurement, NtpClock, NtpDuration, NtpLeapIndicator, NtpManager, NtpTimestamp,
+    ObservableSourceState, ObservableSourceTimedata, PollInterval, PollIntervalLimits,
+    ProtocolVersion, SourceConfig, SourceController, SynchronizationConfig,
+};
+
+use super::common::{self, Ctx};
+use crate::daemon::config::TimestampMode;
+use crate::daemon::ntp_source::verif_probe::gs as probe;
+use crate::daemon::ntp_source::{MsgForSystem, SourceChannels, Wait};
+use crate::daemon::util::EPOCH_OFFSET;
+
+// =======================================================================================
+// keeper: kernel receive time stamping stays switched on for the whole process
+// =======================================================================================
+
+pub(super) fn ensure_timestamping() -> Result<(), String> {
+    use timestamped_socket::socket::{GeneralTimestampMode, Open, Socket, open_ip};
+    static KEEPER: std::sync::OnceLock<Result<(tokio::runtime::Runtime, Socket<SocketAddr, Open>), String>> =
+        std::sync::OnceLock::new();
+    let k = KEEPER.get_or_init(|| {
+        let rt = tokio::runtime::Builder::new_current_thread().enable_all().build().map_err(|e| e.to_string())?;
+        let sock = rt.block_on(async {
+            let lo = IpAddr::V4(Ipv4Addr::LOCALHOST);
+            let sock = open_ip(SocketAddr::new(lo, 0), GeneralTimestampMode::SoftwareRecv, false)
+                .map_err(|e| format!("keeper socket: {e}"))?;
+            let to = sock.local_addr();
+            let tx = UdpSocket::bind(SocketAddr::new(lo, 0)).map_err(|e| e.to_string())?;
+            let mut buf = [0u8; 16];
+            let mut stamped = 0;
+            for _ in 0..2000 {
+                tx.send_to(&[0x55], to).map_err(|e| e.to_string())?;
+                match tokio::time::timeout(Duration::from_secs(5), sock.recv(&mut buf)).await {
+                    Ok(Ok(r)) if r.timestamp_data.selected_timestamp().is_some() => {
+                        stamped += 1;
+                        if stamped >= 3 {
+                            return Ok(sock);
+                        }
+                    }
+                    Ok(Ok(_)) => {
+                        stamped = 0;
+                        tokio::time::sleep(Duration::from_millis(5)).await;
+                    }
+                    Ok(Err(e)) => return Err(format!("keeper recv: {e}")),
+                    Err(_) => return Err("keeper socket received nothing".to_string()),
+                }
+            }
+            Err("the kernel never started stamping received datagrams".to_string())
+        })?;
+        Ok((rt, sock))
+    });
+    k.as_ref().map(|_| ()).map_err(|e| e.clone())
+}
+
+// =======================================================================================
+// event log: what the task says it did (tracing events of this thread)
+// =======================================================================================
+
+#[derive(Default)]
+pub(super) struct EvLog {
+    /// "wait completed": the task took the timer branch
+    pub timer: AtomicU64,
+    /// "accept packet": the task took a datagram (or an error) from its socket
+    pub recv: AtomicU64,
+    /// "received packet is too small": number of such events, and the size of the last one
+    pub small: AtomicU64,
+    pub small_size: AtomicU64,
+    /// datagrams that came without a kernel time stamp (clock substituted)
+    pub unstamped: AtomicU64,
+    /// library / task warnings and debug lines by text (vacuity counters only, never judged)
+    pub lines: Mutex<BTreeMap<String, u64>>,
+}
+
+struct Sub(Arc<EvLog>);
+
+#[derive(Default)]
+struct Fields {
+    msg: String,
+    actual: Option<u64>,
+}
+
+impl tracing::field::Visit for Fields {
+    fn record_u64(&mut self, field: &tracing::field::Field, value: u64) {
+        if field.name() == "actual" {
+            self.actual = Some(value);
+        }
+    }
+    fn record_i64(&mut self, field: &tracing::field::Field, value: i64) {
+        if field.name() == "actual" {
+            self.actual = Some(value as u64);
+        }
+    }
+    fn record_debug(&mut self, field: &tracing::field::Field, value: &dyn std::fmt::Debug) {
+        if field.name() == "message" {
+            use std::fmt::Write;
+            let _ = write!(self.msg, "{value:?}");
+        }
+    }
+}
+
+impl tracing::Subscriber for Sub {
+    fn enabled(&self, _metadata: &tracing::Metadata<'_>) -> bool {
+        true
+    }
+    fn new_span(&self, _span: &tracing::span::Attributes<'_>) -> tracing::span::Id {
+        tracing::span::Id::from_u64(1)
+    }
+    fn record(&self, _span: &tracing::span::Id, _values: &tracing::span::Record<'_>) {}
+    fn record_follows_from(&self, _span: &tracing::span::Id, _follows: &tracing::span::Id) {}
+    fn event(&self, event: &tracing::Event<'_>) {
+        let mut f = Fields::default();
+        event.record(&mut f);
+        let log = &self.0;
+        match f.msg.as_str() {
+            "wait completed" => {
+                log.timer.fetch_add(1, Ordering::SeqCst);
+            }
+            "accept packet" => {
+                log.recv.fetch_add(1, Ordering::SeqCst);
+            }
+            "received packet is too small" => {
+                log.small_size.store(f.actual.unwrap_or(u64::MAX), Ordering::SeqCst);
+                log.small.fetch_add(1, Ordering::SeqCst);
+            }
+            "received a packet without a timestamp, substituting" => {
+                log.unstamped.fetch_add(1, Ordering::SeqCst);
+            }
+            other => {
+                let mut key: String = other.chars().take(48).collect();
+                if key.is_empty() {
+                    key = "<no message>".to_string();
+                }
+                *log.lines.lock().unwrap().entry(key).or_insert(0) += 1;
+            }
+        }
+    }
+    fn enter(&self, _span: &tracing::span::Id) {}
+    fn exit(&self, _span: &tracing::span::Id) {}
+}
+
+// =======================================================================================
+// manual poll timer, clock, controller
+// =======================================================================================
+
+#[derive(Default)]
+pub(super) struct WaitShared {
+    fired: bool,
+    waker: Option<std::task::Waker>,
+    /// every `reset(deadline)`: deadline - now (virtual time, exact because the clock is paused)
+    pub resets: Vec<Duration>,
+}
+
+pub(super) struct ManualWait(pub Arc<Mutex<WaitShared>>);
+
+impl Future for ManualWait {
+    type Output = ();
+    fn poll(self: Pin<&mut Self>, cx: &mut Context<'_>) -> Poll<()> {
+        let mut s = self.0.lock().unwrap();
+        if s.fired {
+            s.fired = false;
+            s.waker = None;
+            Poll::Ready(())
+        } else {
+            s.waker = Some(cx.waker().clone());
+            Poll::Pending
+        }
+    }
+}
+
+impl Wait for ManualWait {
+    fn reset(self: Pin<&mut Self>, deadline: tokio::time::Instant) {
+        let now = tokio::time::Instant::now();
+        self.0.lock().unwrap().resets.push(deadline.saturating_duration_since(now));
+    }
+}
+
+pub(super) fn fire(w: &Arc<Mutex<WaitShared>>) {
+    let mut s = w.lock().unwrap();
+    s.fired = true;
+    if let Some(wk) = s.waker.take() {
+        wk.wake();
+    }
+}
+
+/// Reading k (k = 0, 1, ..) is `CLOCK_BASE + k` seconds, fraction 0.
+pub(super) const CLOCK_BASE: u32 = 0xE000_0000;
+
+#[derive(Clone)]
+pub(super) struct SeqClock(pub Arc<AtomicU32>);
+
+impl SeqClock {
+    pub(super) fn reading(k: u32) -> NtpTimestamp {
+        NtpTimestamp::from_seconds_nanos_since_ntp_era(CLOCK_BASE.wrapping_add(k), 0)
+    }
+}
+
+impl NtpClock for SeqClock {
+    type Error = std::io::Error;
+    fn now(&self) -> Result<NtpTimestamp, Self::Error> {
+        let k = self.0.fetch_add(1, Ordering::SeqCst);
+        Ok(Self::reading(k))
+    }
+    fn set_frequency(&self, _freq: f64) -> Result<NtpTimestamp, Self::Error> {
+        self.now()
+    }
+    fn get_frequency(&self) -> Result<f64, Self::Error> {
+        Ok(0.0)
+    }
+    fn step_clock(&self, _offset: NtpDuration) -> Result<NtpTimestamp, Self::Error> {
+        self.now()
+    }
+    fn disable_ntp_algorithm(&self) -> Result<(), Self::Error> {
+        Ok(())
+    }
+    fn error_estimate_update(&self, _e: NtpDuration, _m: NtpDuration) -> Result<(), Self::Error> {
+        Ok(())
+    }
+    fn status_update(&self, _l: NtpLeapIndicator) -> Result<(), Self::Error> {
+        Ok(())
+    }
+}
+
+#[derive(Default)]
+pub(super) struct Rec {
+    pub meas: Vec<Measurement>,
+    pub usable: Vec<bool>,
+    /// `observe()` calls = snapshots the task published
+    pub observes: u64,
+}
+
+pub(super) struct RecCtl {
+    rec: Arc<Mutex<Rec>>,
+    desired: PollInterval,
+}
+
+pub(super) fn rec_ctl(rec: Arc<Mutex<Rec>>, desired: PollInterval) -> RecCtl {
+    RecCtl { rec, desired }
+}
+
+impl SourceController for RecCtl {
+    fn handle_measurement(&mut self, measurement: Measurement) {
+        self.rec.lock().unwrap().meas.push(measurement);
+    }
+    fn set_usable(&mut self, usable: bool) {
+        self.rec.lock().unwrap().usable.push(usable);
+    }
+    fn desired_poll_interval(&self) -> PollInterval {
+        self.desired
+    }
+    fn observe(&self) -> ObservableSourceTimedata {
+        self.rec.lock().unwrap().observes += 1;
+        ObservableSourceTimedata::default()
+    }
+}
+
+// =======================================================================================
+// configurations, script symbols, traces
+// =======================================================================================
+
+#[derive(Clone, Copy, Debug, PartialEq, Eq, Hash, PartialOrd, Ord)]
+pub(super) enum Ver {
+    V4,
+    V5,
+    /// `V4UpgradingToV5` with 8 tries — what the standard and pool spawners configure
+    Auto,
+}
+
+#[derive(Clone, Copy, Debug, PartialEq, Eq, Hash, PartialOrd, Ord)]
+pub(super) enum Ts {
+    /// `TimestampMode::Software`: no kernel stamps, the task substitutes its clock
+    Sw,
+    /// `TimestampMode::KernelRecv` (what the crate's own tests use)
+    Kr,
+    /// `TimestampMode::KernelAll` (the Linux default): kernel send time stamps as well
+    Ka,
+}
+
+#[derive(Clone, Copy, Debug, PartialEq, Eq, Hash, PartialOrd, Ord)]
+pub(super) struct Cfg {
+    pub ver: Ver,
+    pub min: i8,
+    pub max: i8,
+    pub ts: Ts,
+}
+
+impl Cfg {
+    pub(super) fn code(&self) -> String {
+        format!(
+            "{};{}-{};{}",
+            match self.ver {
+                Ver::V4 => "v4",
+                Ver::V5 => "v5",
+                Ver::Auto => "auto",
+            },
+            self.min,
+            self.max,
+            match self.ts {
+                Ts::Sw => "sw",
+                Ts::Kr => "kr",
+                Ts::Ka => "ka",
+            }
+        )
+    }
+    pub(super) fn parse(s: &str) -> Option<Cfg> {
+        let p: Vec<&str> = s.split(';').collect();
+        if p.len() != 3 {
+            return None;
+        }
+        let ver = match p[0] {
+            "v4" => Ver::V4,
+            "v5" => Ver::V5,
+            "auto" => Ver::Auto,
+            _ => return None,
+        };
+        let (a, b) = p[1].split_once('-')?;
+        let ts = match p[2] {
+            "sw" => Ts::Sw,
+            "kr" => Ts::Kr,
+            "ka" => Ts::Ka,
+            _ => return None,
+        };
+        Some(Cfg { ver, min: a.parse().ok()?, max: b.parse().ok()?, ts })
+    }
+}
+
+/// What the scripted server does with one poll.
+#[derive(Clone, Copy, Debug, PartialEq, Eq, Hash, PartialOrd, Ord)]
+pub(super) enum Sym {
+    /// no answer
+    N,
+    /// valid answer (stratum 2, server mode, identifier of this request, from the server address)
+    V,
+    /// the same valid answer delivered twice
+    W,
+    /// answer whose origin time stamp / client cookie is not the one of the request
+    O,
+    /// KISS DENY (v5: stratum 0, poll 127)
+    D,
+    /// KISS RSTR (v4 only; NTPv5 has no such code)
+    S,
+    /// KISS RATE (v5: stratum 0, poll own+1)
+    R,
+    /// unknown KISS code (v4 "XXXX"; v5: stratum 0, poll own)
+    U,
+    /// valid answer sent from another address (127.0.0.2, same port)
+    A,
+    /// valid answer sent from the server's address but another port
+    P,
+    /// valid answer that arrives 5.5 s (virtual) after the request: outside the poll window
+    L,
+    /// NTPv5 only: valid answer whose poll field asks for max+2
+    Q,
+}
+
+impl Sym {
+    pub(super) const ALL: [Sym; 12] =
+        [Sym::N, Sym::V, Sym::W, Sym::O, Sym::D, Sym::S, Sym::R, Sym::U, Sym::A, Sym::P, Sym::L, Sym::Q];
+    pub(super) fn ch(self) -> char {
+        match self {
+            Sym::N => 'N',
+            Sym::V => 'V',
+            Sym::W => 'W',
+            Sym::O => 'O',
+            Sym::D => 'D',
+            Sym::S => 'S',
+            Sym::R => 'R',
+            Sym::U => 'U',
+            Sym::A => 'A',
+            Sym::P => 'P',
+            Sym::L => 'L',
+            Sym::Q => 'Q',
+        }
+    }
+    pub(super) fn from_ch(c: char) -> Option<Sym> {
+        Sym::ALL.into_iter().find(|s| s.ch() == c)
+    }
+    /// Does the symbol exist for this kind of source?
+    pub(super) fn applies(self, ver: Ver) -> bool {
+        match self {
+            Sym::S => ver == Ver::V4,
+            Sym::Q => ver == Ver::V5,
+            _ => true,
+        }
+    }
+    /// Statement, daemon level: is this a usable answer to the pending request?
+    pub(super) fn usable(self) -> bool {
+        matches!(self, Sym::V | Sym::W | Sym::Q)
+    }
+}
+
+#[derive(Clone, Debug, PartialEq, Eq, Hash)]
+pub(super) struct Case {
+    pub cfg: Cfg,
+    pub script: Vec<Sym>,
+}
+
+impl Case {
+    pub(super) fn trace(&self) -> String {
+        format!("{};{}", self.cfg.code(), self.script.iter().map(|s| s.ch()).collect::<String>())
+    }
+    pub(super) fn parse(s: &str) -> Option<Case> {
+        let s = s.trim();
+        let (c, script) = s.rsplit_once(';')?;
+        let cfg = Cfg::parse(c)?;
+        let script: Option<Vec<Sym>> = script.chars().map(Sym::from_ch).collect();
+        Some(Case { cfg, script: script? })
+    }
+}
+
+// =======================================================================================
+// wire: request walker, answer builder (byte level, no NtpPacket)
+// =======================================================================================
+
+const UPGRADE_MARKER: [u8; 8] = *b"NTP5DRFT";
+const DRAFT: &[u8] = b"draft-ietf-ntp-ntpv5-09";
+
+#[derive(Clone, Debug)]
+pub(super) struct Req {
+    pub from: SocketAddr,
+    pub len: usize,
+    pub version: u8,
+    pub mode: u8,
+    /// poll exponent on the wire
+    pub poll: i8,
+    /// v4: transmit time stamp; v5: client cookie
+    pub id8: [u8; 8],
+    /// v4 request carrying the NTPv5 upgrade marker
+    pub marker: bool,
+    /// index of the last clock reading taken before the datagram was seen (= the send time stamp)
+    pub clock_k: u32,
+}
+
+pub(super) fn parse_req(bytes: &[u8], from: SocketAddr, clock_k: u32) -> Option<Req> {
+    if bytes.len() < 48 {
+        return None;
+    }
+    let version = (bytes[0] >> 3) & 7;
+    let mut id8 = [0u8; 8];
+    if version == 5 {
+        id8.copy_from_slice(&bytes[24..32]);
+    } else {
+        id8.copy_from_slice(&bytes[40..48]);
+    }
+    Some(Req {
+        from,
+        len: bytes.len(),
+        version,
+        mode: bytes[0] & 7,
+        poll: bytes[2] as i8,
+        id8,
+        marker: version == 4 && bytes[16..24] == UPGRADE_MARKER,
+        clock_k,
+    })
+}
+
+#[derive(Clone, Copy, Debug, PartialEq, Eq)]
+pub(super) enum Kind {
+    Valid,
+    /// valid, poll field = this value (NTPv5 server request)
+    ValidAsking(i8),
+    WrongOrigin,
+    Deny,
+    Rstr,
+    Rate,
+    Unknown,
+}
+
+pub(super) const RECV_BASE: u32 = 0xA000_0000;
+pub(super) const XMIT_BASE: u32 = 0xB000_0000;
+
+/// Answer to `req` in the version of the request. `serial` makes the receive / transmit time
+/// stamps of every answer unique (seconds field; fraction 0) so that a delivered measurement can
+/// be tied to the datagram it came from.
+pub(super) fn build_answer(req: &Req, kind: Kind, serial: u32) -> Vec<u8> {
+    let usable = matches!(kind, Kind::Valid | Kind::ValidAsking(_));
+    let stratum: u8 = if usable || kind == Kind::WrongOrigin { 2 } else { 0 };
+    let mut id8 = req.id8;
+    if kind == Kind::WrongOrigin {
+        id8[7] ^= 0x01;
+        id8[0] ^= 0x80;
+    }
+    let mut recv = [0u8; 8];
+    recv[..4].copy_from_slice(&(RECV_BASE + serial).to_be_bytes());
+    let mut xmit = [0u8; 8];
+    xmit[..4].copy_from_slice(&(XMIT_BASE + serial).to_be_bytes());
+    let own = req.poll as u8;
+    let mut d = Vec::with_capacity(80);
+    if req.version == 5 {
+        d.push((5 << 3) | 4);
+        d.push(stratum);
+        d.push(match kind {
+            Kind::Rate => own.saturating_add(1).min(126),
+            Kind::Deny => 127,
+            Kind::ValidAsking(p) => p as u8,
+            _ => own,
+        });
+        d.push(0xE8); // precision
+        d.extend_from_slice(&[0, 0, 0x10, 0]); // root delay (time32)
+        d.extend_from_slice(&[0, 0, 0x20, 0]); // root dispersion (time32)
+        d.push(0); // timescale UTC
+        d.push(0); // era
+        d.extend_from_slice(&[0, if stratum != 0 { 1 } else { 0 }]); // flags: synchronized
+        d.extend_from_slice(b"SRVCOOKI");
+        d.extend_from_slice(&id8);
+        d.extend_from_slice(&recv);
+        d.extend_from_slice(&xmit);
+        d.extend_from_slice(&0xF5FFu16.to_be_bytes());
+        d.extend_from_slice(&((4 + DRAFT.len()) as u16).to_be_bytes());
+        d.extend_from_slice(DRAFT);
+        while d.len() % 4 != 0 {
+            d.push(0);
+        }
+    } else {
+        d.push((req.version << 3) | 4);
+        d.push(stratum);
+        d.push(own);
+        d.push(0xE8);
+        d.extend_from_slice(&[0, 0, 0x01, 0]); // root delay
+        d.extend_from_slice(&[0, 0, 0x02, 0]); // root dispersion
+        let refid: [u8; 4] = match kind {
+            Kind::Deny => *b"DENY",
+            Kind::Rstr => *b"RSTR",
+            Kind::Rate => *b"RATE",
+            Kind::Unknown => *b"XXXX",
+            _ => *b"VRF\0",
+        };
+        d.extend_from_slice(&refid);
+        if usable && req.marker {
+            // a server that speaks NTPv5 mirrors the marker (only in usable answers, as ntpd-rs does)
+            d.extend_from_slice(&UPGRADE_MARKER);
+        } else {
+            d.extend_from_slice(&[0xD0, 0, 0, 0, 0, 0, 0, 1]);
+        }
+        d.extend_from_slice(&id8);
+        d.extend_from_slice(&recv);
+        d.extend_from_slice(&xmit);
+    }
+    d
+}
+
+// =======================================================================================
+// observations
+// =======================================================================================
+
+#[derive(Clone, Copy, Debug, PartialEq, Eq, Hash)]
+pub(super) enum MsgKind {
+    Unreachable,
+    MustDemobilize,
+    NetworkIssue,
+    /// a message carrying another source's id
+    ForeignId,
+}
+
+impl MsgKind {
+    fn code(self) -> &'static str {
+        match self {
+            MsgKind::Unreachable => "unreachable",
+            MsgKind::MustDemobilize => "demobilize",
+            MsgKind::NetworkIssue => "network-issue",
+            MsgKind::ForeignId => "foreign-id",
+        }
+    }
+}
+
+#[derive(Clone, Debug)]
+pub(super) struct Sent {
+    pub kind: Kind,
+    pub serial: u32,
+    /// 0 = server address, 1 = other address, 2 = other port
+    pub via: u8,
+    /// virtual seconds (x10) advanced before it was sent
+    pub late: bool,
+}
+
+#[derive(Clone, Debug, Default)]
+pub(super) struct StepObs {
+    /// the request seen on the wire after the timer fired
+    pub req: Option<Req>,
+    /// further datagrams seen at the server (or the other sockets) during the step
+    pub extra_datagrams: usize,
+    /// datagrams shorter than 48 bytes / unparsable seen at the server
+    pub odd_datagrams: usize,
+    pub resets: Vec<Duration>,
+    pub msgs: Vec<MsgKind>,
+    pub finished: bool,
+    pub panicked: Option<String>,
+    pub meas: Vec<Measurement>,
+    pub usable_calls: Vec<bool>,
+    /// published state after the step: (unanswered polls, poll exponent, address text)
+    pub snap: Option<(u32, i8, String)>,
+    pub snap_foreign_entries: usize,
+    pub observes: u64,
+    /// index of the first clock reading of the step, number of readings in the step
+    pub clock_first: u32,
+    pub clock_reads: u32,
+    pub timer_events: u64,
+    pub recv_events: u64,
+    pub unstamped: u64,
+    pub sent: Vec<Sent>,
+    pub stuck: Option<String>,
+    /// real time around the step (seconds since the unix epoch), for kernel time stamps
+    pub real_before: f64,
+    pub real_after: f64,
+}
+
+#[derive(Clone, Debug, Default)]
+pub(super) struct CaseObs {
+    /// the id the source was created with
+    pub index: Option<ClockId>,
+    pub steps: Vec<StepObs>,
+    /// steps after the task reported Unreachable / MustDemobilize / ended (timer fired again)
+    pub epilogue: Vec<StepObs>,
+    pub stale_datagrams: usize,
+    pub machinery: Option<String>,
+}
+
+// =======================================================================================
+// the worker: runtime + sockets + log, reused for many cases
+// =======================================================================================
+
+pub(super) struct Io {
+    pub log: Arc<EvLog>,
+    pub server: UdpSocket,
+    pub alt_ip: UdpSocket,
+    pub alt_port: UdpSocket,
+    pub server_addr: SocketAddr,
+    serial: u32,
+    sentinel: u64,
+}
+
+impl Io {
+    pub(super) fn next_serial(&mut self) -> u32 {
+        self.serial += 1;
+        self.serial
+    }
+    /// Send the next sentinel to the task's socket; returns (size, "too small" events so far).
+    pub(super) fn send_sentinel(&mut self, to: SocketAddr) -> Result<(u64, u64), String> {
+        self.sentinel = self.sentinel % 40 + 1;
+        let size = self.sentinel;
+        let before = self.log.small.load(Ordering::SeqCst);
+        self.server.send_to(&vec![0x5E; size as usize], to).map_err(|e| format!("send sentinel: {e}"))?;
+        Ok((size, before))
+    }
+    pub(super) fn sentinel_seen(&self, size: u64, before: u64) -> bool {
+        self.log.small.load(Ordering::SeqCst) > before && self.log.small_size.load(Ordering::SeqCst) == size
+    }
+}
+
+pub(super) struct Worker {
+    pub(super) rt: tokio::runtime::Runtime,
+    _guard: tracing::subscriber::DefaultGuard,
+    pub io: Io,
+}
+
+pub(super) fn deadman() -> Duration {
+    let s = std::env::var("VERIF_GS_DEADMAN_S").ok().and_then(|v| v.parse::<f64>().ok()).unwrap_or(20.0);
+    Duration::from_secs_f64(s)
+}
+
+impl Worker {
+    pub(super) fn new() -> Result<Worker, String> {
+        ensure_timestamping()?;
+        let log = Arc::new(EvLog::default());
+        let guard = tracing::subscriber::set_default(Sub(log.clone()));
+        let rt = tokio::runtime::Builder::new_current_thread()
+            .enable_all()
+            .start_paused(true)
+            .build()
+            .map_err(|e| format!("runtime: {e}"))?;
+        let lo = Ipv4Addr::LOCALHOST;
+        let lo2 = Ipv4Addr::new(127, 0, 0, 2);
+        let mut last = String::new();
+        for _ in 0..200 {
+            let server = UdpSocket::bind((lo, 0)).map_err(|e| format!("bind server: {e}"))?;
+            let server_addr = server.local_addr().map_err(|e| e.to_string())?;
+            let alt_ip = match UdpSocket::bind((lo2, server_addr.port())) {
+                Ok(s) => s,
+                Err(e) => {
+                    last = format!("bind 127.0.0.2:{}: {e}", server_addr.port());
+                    continue;
+                }
+            };
+            let alt_port = UdpSocket::bind((lo, 0)).map_err(|e| format!("bind alt port: {e}"))?;
+            for s in [&server, &alt_ip, &alt_port] {
+                s.set_nonblocking(true).map_err(|e| e.to_string())?;
+            }
+            return Ok(Worker {
+                rt,
+                _guard: guard,
+                io: Io { log, server, alt_ip, alt_port, server_addr, serial: 0, sentinel: 0 },
+            });
+        }
+        Err(format!("no usable server port: {last}"))
+    }
+
+    pub(super) fn run(&mut self, case: &Case) -> CaseObs {
+        let Worker { rt, io, .. } = self;
+        rt.block_on(drive(io, case))
+    }
+}
+
+type TaskFut = Pin<Box<dyn Future<Output = ()>>>;
+
+struct Live {
+    fut: Option<TaskFut>,
+    panicked: Option<String>,
+    wait: Arc<Mutex<WaitShared>>,
+    rec: Arc<Mutex<Rec>>,
+    clock: Arc<AtomicU32>,
+    msgs: tokio::sync::mpsc::Receiver<MsgForSystem>,
+    snaps: Arc<RwLock<HashMap<ClockId, ObservableSourceState>>>,
+    index: ClockId,
+    /// where the task's current socket lives (source address of its last request)
+    task_addr: Option<SocketAddr>,
+    last_req: Option<Req>,
+    /// virtual time still to pass before the next timer firing
+    pending_advance: Duration,
+}
+
+fn unix_now() -> f64 {
+    std::time::SystemTime::now().duration_since(std::time::UNIX_EPOCH).map(|d| d.as_secs_f64()).unwrap_or(0.0)
+}
+
+/// One scheduling round: poll the task once (if it is alive), then let the runtime poll its
+/// I/O driver so that socket readiness reaches the task's waker.
+async fn round(live: &mut Live) {
+    if live.fut.is_some() {
+        let mut done = false;
+        let mut panicked = None;
+        std::future::poll_fn(|cx| {
+            if let Some(f) = live.fut.as_mut() {
+                match common::catch(|| f.as_mut().poll(cx)) {
+                    Ok(Poll::Ready(())) => done = true,
+                    Ok(Poll::Pending) => {}
+                    Err(p) => {
+                        panicked = Some(p);
+                        done = true;
+                    }
+                }
+            }
+            Poll::Ready(())
+        })
+        .await;
+        if done {
+            live.fut = None;
+        }
+        if panicked.is_some() {
+            live.panicked = panicked;
+        }
+    }
+    tokio::task::yield_now().await;
+}
+
+pub(super) fn msg_kind(m: &MsgForSystem, index: ClockId) -> MsgKind {
+    match m {
+        MsgForSystem::Unreachable(i) if *i == index => MsgKind::Unreachable,
+        MsgForSystem::MustDemobilize(i) if *i == index => MsgKind::MustDemobilize,
+        MsgForSystem::NetworkIssue(i) if *i == index => MsgKind::NetworkIssue,
+        _ => MsgKind::ForeignId,
+    }
+}
+
+struct Marks {
+    resets: usize,
+    meas: usize,
+    usable: usize,
+    observes: u64,
+    clock: u32,
+    timer: u64,
+    recv: u64,
+    unstamped: u64,
+}
+
+fn marks(io: &Io, live: &Live) -> Marks {
+    let rec = live.rec.lock().unwrap();
+    Marks {
+        resets: live.wait.lock().unwrap().resets.len(),
+        meas: rec.meas.len(),
+        usable: rec.usable.len(),
+        observes: rec.observes,
+        clock: live.clock.load(Ordering::SeqCst),
+        timer: io.log.timer.load(Ordering::SeqCst),
+        recv: io.log.recv.load(Ordering::SeqCst),
+        unstamped: io.log.unstamped.load(Ordering::SeqCst),
+    }
+}
+
+/// Back off a little once a wait takes unusually long, so a descheduled kernel path does not
+/// cost a whole core; never decides anything.
+pub(super) fn backoff(rounds: u32) {
+    if rounds > 64 {
+        std::thread::sleep(Duration::from_micros(if rounds > 2000 { 1000 } else { 50 }));
+    }
+}
+
+/// Fire the poll timer and play `sym` against whatever the task sends.
+async fn step(io: &mut Io, live: &mut Live, sym: Sym, max: i8, dead: Duration) -> StepObs {
+    let mut o = StepObs::default();
+    let m0 = marks(io, live);
+    o.clock_first = m0.clock;
+    o.real_before = unix_now();
+    if live.fut.is_some() && !live.pending_advance.is_zero() {
+        tokio::time::advance(live.pending_advance).await;
+    }
+    live.pending_advance = Duration::ZERO;
+    fire(&live.wait);
+
+    // phase 1: the timer's effect — a datagram on the wire, a message, or the end of the task
+    let t0 = std::time::Instant::now();
+    let mut rounds = 0u32;
+    let mut buf = [0u8; 2048];
+    loop {
+        round(live).await;
+        match io.server.recv_from(&mut buf) {
+            Ok((n, from)) => {
+                let k = live.clock.load(Ordering::SeqCst).wrapping_sub(1);
+                match parse_req(&buf[..n], from, k) {
+                    Some(r) => {
+                        o.req = Some(r);
+                        break;
+                    }
+                    None => o.odd_datagrams += 1,
+                }
+            }
+            Err(e) if e.kind() == std::io::ErrorKind::WouldBlock => {}
+            Err(e) => {
+                o.stuck = Some(format!("server socket: {e}"));
+                break;
+            }
+        }
+        while let Ok(m) = live.msgs.try_recv() {
+            o.msgs.push(msg_kind(&m, live.index));
+        }
+        if live.fut.is_none() || !o.msgs.is_empty() {
+            break;
+        }
+        rounds += 1;
+        backoff(rounds);
+        if t0.elapsed() > dead {
+            o.stuck = Some("timer fired: no datagram, no message, task still running".to_string());
+            break;
+        }
+    }
+
+    // phase 2: the scripted server's reaction, then the sentinel
+    if let Some(req) = o.req.clone() {
+        live.task_addr = Some(req.from);
+        live.last_req = Some(req.clone());
+        let mut plan: Vec<(Kind, u8)> = Vec::new();
+        match sym {
+            Sym::N => {}
+            Sym::V | Sym::L => plan.push((Kind::Valid, 0)),
+            Sym::W => {
+                plan.push((Kind::Valid, 0));
+                plan.push((Kind::Valid, 0));
+            }
+            Sym::O => plan.push((Kind::WrongOrigin, 0)),
+            Sym::D => plan.push((Kind::Deny, 0)),
+            Sym::S => plan.push((Kind::Rstr, 0)),
+            Sym::R => plan.push((Kind::Rate, 0)),
+            Sym::U => plan.push((Kind::Unknown, 0)),
+            Sym::A => plan.push((Kind::Valid, 1)),
+            Sym::P => plan.push((Kind::Valid, 2)),
+            Sym::Q => plan.push((Kind::ValidAsking(max.saturating_add(2)), 0)),
+        }
+        let mut late = false;
+        if sym == Sym::L {
+            tokio::time::advance(Duration::from_millis(5500)).await;
+            late = true;
+        }
+        let mut bytes: Option<Vec<u8>> = None;
+        for (kind, via) in plan {
+            // `W` delivers the very same datagram twice
+            let b = match (&bytes, sym) {
+                (Some(b), Sym::W) => b.clone(),
+                _ => {
+                    let serial = io.next_serial();
+                    build_answer(&req, kind, serial)
+                }
+            };
+            let sock = match via {
+                0 => &io.server,
+                1 => &io.alt_ip,
+                _ => &io.alt_port,
+            };
+            if let Err(e) = sock.send_to(&b, req.from) {
+                o.stuck = Some(format!("send answer: {e}"));
+            }
+            o.sent.push(Sent { kind, serial: io.serial, via, late });
+            bytes = Some(b);
+        }
+        // sentinel: a short datagram of a size not used by the previous sentinel
+        let (size, seen_before) = match io.send_sentinel(req.from) {
+            Ok(x) => x,
+            Err(e) => {
+                o.stuck = Some(e);
+                (0, u64::MAX)
+            }
+        };
+        let t0 = std::time::Instant::now();
+        let mut rounds = 0u32;
+        loop {
+            round(live).await;
+            if io.sentinel_seen(size, seen_before) || o.stuck.is_some() {
+                break;
+            }
+            if live.fut.is_none() {
+                break;
+            }
+            rounds += 1;
+            backoff(rounds);
+            if t0.elapsed() > dead {
+                o.stuck = Some(format!("sentinel of {size} bytes never consumed by the task"));
+                break;
+            }
+        }
+    }
+
+    // collect
+    for sock in [&io.server, &io.alt_ip, &io.alt_port] {
+        loop {
+            match sock.recv_from(&mut buf) {
+                Ok(_) => o.extra_datagrams += 1,
+                Err(_) => break,
+            }
+        }
+    }
+    while let Ok(m) = live.msgs.try_recv() {
+        o.msgs.push(msg_kind(&m, live.index));
+    }
+    let m1 = marks(io, live);
+    {
+        let w = live.wait.lock().unwrap();
+        o.resets = w.resets[m0.resets..].to_vec();
+    }
+    {
+        let rec = live.rec.lock().unwrap();
+        o.meas = rec.meas[m0.meas..].to_vec();
+        o.usable_calls = rec.usable[m0.usable..].to_vec();
+    }
+    o.observes = m1.observes - m0.observes;
+    o.clock_reads = m1.clock.wrapping_sub(m0.clock);
+    o.timer_events = m1.timer - m0.timer;
+    o.recv_events = m1.recv - m0.recv;
+    o.unstamped = m1.unstamped - m0.unstamped;
+    o.finished = live.fut.is_none();
+    o.panicked = live.panicked.clone();
+    {
+        let map = live.snaps.read().unwrap();
+        o.snap = map.get(&live.index).map(|s| (s.unanswered_polls, s.poll_interval.as_log(), s.address.clone()));
+        o.snap_foreign_entries = map.len() - usize::from(o.snap.is_some());
+    }
+    // the task asked for this much time until its next poll
+    if let Some(d) = o.resets.last() {
+        live.pending_advance = d.saturating_sub(if sym == Sym::L && o.req.is_some() {
+            Duration::from_millis(5500)
+        } else {
+            Duration::ZERO
+        });
+    }
+    o.real_after = unix_now();
+    o
+}
+
+/// Number of silent polls appended to every script: enough for a source that was answered in
+/// the last scripted poll to miss eight polls and meet its ninth timer, plus one.
+pub(super) const TAIL: usize = 10;
+
+async fn drive(io: &mut Io, case: &Case) -> CaseObs {
+    let mut out = CaseObs::default();
+    let mut buf = [0u8; 2048];
+    for sock in [&io.server, &io.alt_ip, &io.alt_port] {
+        while sock.recv_from(&mut buf).is_ok() {
+            out.stale_datagrams += 1;
+        }
+    }
+    let cfg = case.cfg;
+    let limits = PollIntervalLimits {
+        min: PollInterval::from_byte(cfg.min as u8),
+        max: PollInterval::from_byte(cfg.max as u8),
+    };
+    let source_config = SourceConfig { poll_interval_limits: limits, initial_poll_interval: limits.min };
+    let pv = match cfg.ver {
+        Ver::V4 => ProtocolVersion::V4,
+        Ver::V5 => ProtocolVersion::V5,
+        Ver::Auto => ProtocolVersion::v4_upgrading_to_v5_with_default_tries(),
+    };
+    let index = ClockId::new();
+    out.index = Some(index);
+    let rec = Arc::new(Mutex::new(Rec::default()));
+    let clock = Arc::new(AtomicU32::new(0));
+    let wait = Arc::new(Mutex::new(WaitShared::default()));
+    let snaps: Arc<RwLock<HashMap<ClockId, ObservableSourceState>>> = Arc::new(RwLock::new(HashMap::new()));
+    let (tx, rx) = tokio::sync::mpsc::channel(32);
+    // exactly what `System::create_source` does, with a recording controller
+    let manager = NtpManager::new(SynchronizationConfig::default(), Arc::new([]));
+    let (source, initial) = manager.new_source(
+        io.server_addr,
+        source_config,
+        pv,
+        RecCtl { rec: rec.clone(), desired: limits.min },
+        None,
+        index,
+    );
+    let initial: Vec<ntp_proto::NtpSourceAction> = initial.collect();
+    if !(initial.len() == 1 && matches!(initial[0], ntp_proto::NtpSourceAction::SetTimer(d) if d.is_zero())) {
+        out.machinery = Some(format!("unexpected initial actions: {initial:?}"));
+    }
+    let mut task = probe::build::<SeqClock, RecCtl, ManualWait>(
+        index,
+        "verif".to_string(),
+        io.server_addr,
+        SeqClock(clock.clone()),
+        match cfg.ts {
+            Ts::Sw => TimestampMode::Software,
+            Ts::Kr => TimestampMode::KernelRecv,
+            Ts::Ka => TimestampMode::KernelAll,
+        },
+        SourceChannels { msg_for_system_sender: tx, source_snapshots: snaps.clone() },
+        source,
+    );
+    let w = ManualWait(wait.clone());
+    let fut: TaskFut = Box::pin(async move {
+        tokio::pin!(w);
+        probe::run(&mut task, w).await;
+    });
+    let mut live = Live {
+        fut: Some(fut),
+        panicked: None,
+        wait,
+        rec,
+        clock,
+        msgs: rx,
+        snaps,
+        index,
+        task_addr: None,
+        last_req: None,
+        pending_advance: Duration::ZERO,
+    };
+    let dead = deadman();
+    let total = case.script.len() + TAIL;
+    for i in 0..total {
+        let sym = case.script.get(i).copied().unwrap_or(Sym::N);
+        let o = step(io, &mut live, sym, cfg.max, dead).await;
+        let stop = o.finished || !o.msgs.is_empty() || o.stuck.is_some() || o.req.is_none();
+        out.steps.push(o);
+        if stop {
+            break;
+        }
+    }
+    // epilogue: after the report to the system task nothing may leave the task any more
+    for _ in 0..2 {
+        let o = step(io, &mut live, Sym::N, cfg.max, Duration::from_secs(3).min(dead)).await;
+        out.epilogue.push(o);
+        if live.fut.is_none() {
+            // a finished task cannot do anything; one probe is proof enough
+            break;
+        }
+    }
+    drop(live);
+    // let the runtime release what the dropped task held (socket deregistration)
+    tokio::task::yield_now().await;
+    out
+}
+
+// =======================================================================================
+// reference (written from the property statements, daemon-level image) and judgement
+// =======================================================================================
+
+#[derive(Clone, Debug)]
+pub(super) struct Finding {
+    /// "C08" | "C09" | "C10" | "C11"
+    pub prop: &'static str,
+    pub class: String,
+    pub what: String,
+}
+
+#[derive(Default, Clone, Debug)]
+pub(super) struct Verdict {
+    pub findings: Vec<Finding>,
+    /// outcome classes reached (vacuity counters), name -> count
+    pub tags: BTreeMap<String, u64>,
+    /// hashes of the reference states passed through
+    pub states: Vec<u64>,
+    pub transitions: u64,
+    pub machinery: Vec<String>,
+}
+
+impl Verdict {
+    fn find(&mut self, prop: &'static str, class: &str, what: String) {
+        self.findings.push(Finding { prop, class: format!("{prop}:task-{class}"), what });
+    }
+    fn tag(&mut self, t: &str) {
+        *self.tags.entry(t.to_string()).or_insert(0) += 1;
+    }
+}
+
+pub(super) fn two_pow_ns(p: i8) -> u128 {
+    // what `PollInterval::as_system_duration` can represent: exponent clamped to 0..=31
+    let e = p.clamp(0, 31) as u32;
+    (1u128 << e) * 1_000_000_000
+}
+
+fn real_ts_ok(ts: NtpTimestamp, before: f64, after: f64) -> bool {
+    let mk = |t: f64| {
+        let secs = t.floor();
+        NtpTimestamp::from_seconds_nanos_since_ntp_era(
+            EPOCH_OFFSET.wrapping_add(secs as u64 as u32),
+            ((t - secs) * 1e9) as u32,
+        )
+    };
+    let lo = (ts - mk(before)).to_seconds();
+    let hi = (mk(after) - ts).to_seconds();
+    lo > -0.5 && hi > -0.5
+}
+
+/// Compare the observations of one case with the statements of C08..C11.
+pub(super) fn judge(case: &Case, obs: &CaseObs) -> Verdict {
+    let mut v = Verdict::default();
+    let cfg = case.cfg;
+    if let Some(m) = &obs.machinery {
+        v.machinery.push(m.clone());
+    }
+    if obs.stale_datagrams > 0 {
+        v.machinery.push(format!("{} stale datagrams before the case", obs.stale_datagrams));
+    }
+    // reference state
+    let mut polls: u32 = 0;
+    let mut ever = false;
+    let mut since: u32 = 0;
+    let mut deny = false;
+    let mut floor: i8 = cfg.min;
+    let mut rate_seen = false;
+    let mut srv_req: i8 = i8::MIN;
+    let mut ended = false;
+
+    for (i, o) in obs.steps.iter().enumerate() {
+        let sym = case.script.get(i).copied().unwrap_or(Sym::N);
+        v.transitions += 1 + o.sent.len() as u64;
+        v.states.push(common::hash_of(&(polls.min(3), ever, since.min(8), deny, floor, srv_req)));
+        let at = format!("poll #{} ({})", i + 1, sym.ch());
+        if let Some(p) = &o.panicked {
+            v.find("C11", "panicked", format!("{at}: task panicked: {p}"));
+            return v;
+        }
+        if let Some(s) = &o.stuck {
+            v.find("C11", "stuck", format!("{at}: {s}"));
+            return v;
+        }
+        if o.extra_datagrams > 0 || o.odd_datagrams > 0 {
+            v.find(
+                "C11",
+                "more-than-one-datagram-per-timer",
+                format!("{at}: {} further / {} malformed datagrams left the task", o.extra_datagrams, o.odd_datagrams),
+            );
+        }
+        if o.timer_events != 1 {
+            v.machinery.push(format!("{at}: {} timer events for one firing", o.timer_events));
+        }
+        if cfg.ts != Ts::Sw && o.unstamped > 0 {
+            v.tag("machinery.unstamped_datagrams");
+        }
+        let expect_end = (!ever && polls >= 3) || (ever && since >= 8);
+        if expect_end {
+            let want = if deny { MsgKind::MustDemobilize } else { MsgKind::Unreachable };
+            v.tag(if !ever { "end.startup-rule" } else { "end.eight-missed-rule" });
+            v.tag(if deny { "end.must-demobilize" } else { "end.unreachable" });
+            if o.req.is_some() {
+                v.find(
+                    "C11",
+                    "missing-reset",
+                    format!(
+                        "{at}: {} polls, {} since the last usable answer (ever answered: {ever}) — the task polled again instead of reporting {}",
+                        polls,
+                        since,
+                        want.code()
+                    ),
+                );
+                return v;
+            }
+            if o.msgs.is_empty() {
+                v.find("C11", "ended-without-report", format!("{at}: task ended without a message to the system task"));
+            } else {
+                if o.msgs.len() > 1 {
+                    v.find("C11", "report-repeated", format!("{at}: messages {:?}", o.msgs));
+                }
+                if o.msgs[0] != want {
+                    let prop = if matches!(o.msgs[0], MsgKind::Unreachable | MsgKind::MustDemobilize) { "C09" } else { "C11" };
+                    v.find(
+                        prop,
+                        "reset-vs-demobilize",
+                        format!(
+                            "{at}: reported {} but deny seen since the last usable answer = {deny} (want {})",
+                            o.msgs[0].code(),
+                            want.code()
+                        ),
+                    );
+                    if prop == "C09" {
+                        // the same defect seen from C11's statement
+                        v.find("C11", "reset-vs-demobilize", format!("{at}: reported {}, want {}", o.msgs[0].code(), want.code()));
+                    }
+                }
+            }
+            if !o.finished {
+                v.find("C11", "continues-after-report", format!("{at}: the task is still running after {:?}", o.msgs));
+            }
+            if o.snap.is_some() {
+                v.find("C11", "snapshot-left-behind", format!("{at}: published state still present after {:?}", o.msgs));
+            }
+            if !o.resets.is_empty() {
+                v.find("C10", "timer-set-without-send", format!("{at}: poll timer set {:?} while giving up", o.resets));
+            }
+            if !o.meas.is_empty() {
+                v.find("C08", "measurement-without-answer", format!("{at}: {} measurement calls", o.meas.len()));
+            }
+            ended = true;
+            // after the report: nothing further
+            for (j, e) in obs.epilogue.iter().enumerate() {
+                v.transitions += 1;
+                if e.req.is_some() || e.extra_datagrams > 0 {
+                    v.find("C11", "sends-after-report", format!("timer firing #{} after the report: a datagram left the task", j + 1));
+                }
+                if !e.msgs.is_empty() {
+                    v.find("C11", "report-repeated", format!("timer firing #{} after the report: {:?}", j + 1, e.msgs));
+                }
+                if !e.finished && !o.finished {
+                    // already reported as continues-after-report
+                }
+                if let Some(p) = &e.panicked {
+                    v.find("C11", "panicked", format!("after the report: {p}"));
+                }
+            }
+            break;
+        }
+
+        // the source must poll
+        let Some(req) = &o.req else {
+            let what = format!(
+                "{at}: {} polls, {} since the last usable answer (ever answered: {ever}) — expected a poll, got messages {:?}, finished={}",
+                polls, since, o.msgs, o.finished
+            );
+            if o.msgs.contains(&MsgKind::MustDemobilize) {
+                v.find("C09", "demobilized-while-reachable", what.clone());
+            }
+            v.find("C11", "spurious-reset", what);
+            return v;
+        };
+        polls += 1;
+        since += 1;
+        if !o.msgs.is_empty() {
+            let what = format!("{at}: message {:?} although the source polled", o.msgs);
+            if o.msgs.contains(&MsgKind::MustDemobilize) {
+                v.find("C09", "demobilized-while-reachable", what.clone());
+            }
+            v.find("C11", "spurious-reset", what);
+        }
+        if o.finished {
+            v.find("C11", "task-ended-while-reachable", format!("{at}: the task ended after polling"));
+        }
+        let p = req.poll;
+        // ---- C10: poll exponent on the wire, timer value
+        if p < cfg.min {
+            v.find("C10", "poll-below-min", format!("{at}: poll exponent {p} on the wire, configured minimum {}", cfg.min));
+        }
+        let cap = cfg.max.max(srv_req);
+        if p > cap {
+            v.find(
+                "C10",
+                "poll-above-max",
+                format!("{at}: poll exponent {p} on the wire, configured maximum {}, largest server request {}", cfg.max, srv_req),
+            );
+        }
+        if p == cfg.min {
+            v.tag("poll.at-min");
+        } else if p > cfg.max {
+            v.tag("poll.above-max-by-server-request");
+        } else if p == cfg.max {
+            v.tag("poll.at-max");
+        } else {
+            v.tag("poll.between");
+        }
+        if o.resets.len() != 1 {
+            v.find(
+                "C10",
+                "timer-set-count",
+                format!("{at}: the poll timer was set {} times after one poll ({:?})", o.resets.len(), o.resets),
+            );
+        }
+        for d in &o.resets {
+            let ns = d.as_nanos();
+            let unit = two_pow_ns(p);
+            let lo = unit * 101 / 100;
+            let hi = unit * 105 / 100 + unit / 1_000_000_000 + 1;
+            if ns < lo || ns > hi {
+                v.find(
+                    "C10",
+                    "timer-out-of-range",
+                    format!("{at}: poll exponent {p}, timer set to {:.6} s, allowed [{:.2}, {:.2}] s", d.as_secs_f64(), lo as f64 / 1e9, hi as f64 / 1e9),
+                );
+            } else {
+                v.tag("timer.in-range");
+            }
+            // ---- C09: never faster than the RATE floor
+            if rate_seen && ns < two_pow_ns(floor) * 101 / 100 {
+                v.find("C09", "timer-faster-after-rate", format!("{at}: timer {:.6} s below 1.01*2^{floor} s", d.as_secs_f64()));
+            }
+        }
+        if rate_seen && p < floor {
+            v.find("C09", "poll-faster-after-rate", format!("{at}: poll exponent {p} after a RATE answer that demands at least {floor}"));
+        }
+        if rate_seen {
+            v.tag(if floor > cfg.min { "rate.floor-above-min-in-force" } else { "rate.floor-at-min-in-force" });
+        }
+        // request shape (what the wire must look like for the configured source)
+        let ver_ok = match cfg.ver {
+            Ver::V4 => req.version == 4,
+            Ver::V5 => req.version == 5,
+            Ver::Auto => req.version == 4 || req.version == 5,
+        };
+        if !ver_ok || req.mode != 3 {
+            v.find("C08", "request-shape", format!("{at}: request version {} mode {}", req.version, req.mode));
+        }
+        v.tag(match (req.version, req.marker) {
+            (5, _) => "request.v5",
+            (_, true) => "request.v4-upgrade-marker",
+            _ => "request.v4",
+        });
+
+        // ---- the answer of this poll
+        let usable = sym.usable();
+        match sym {
+            Sym::V | Sym::W | Sym::Q => {
+                ever = true;
+                since = 0;
+                deny = false;
+                if sym == Sym::Q {
+                    srv_req = srv_req.max(cfg.max.saturating_add(2));
+                }
+            }
+            Sym::D | Sym::S => deny = true,
+            Sym::R => {
+                rate_seen = true;
+                floor = floor.max(p).max((p.saturating_add(1)).min(cfg.max));
+            }
+            Sym::N | Sym::O | Sym::U | Sym::A | Sym::P | Sym::L => {}
+        }
+        v.tag(&format!("answer.{}", sym.ch()));
+        // ---- C08: measurements
+        let want_calls = if usable { 2 } else { 0 };
+        if o.meas.len() != want_calls {
+            let class = match (sym, o.meas.len()) {
+                (Sym::W, n) if n > 2 => "duplicate-measured",
+                (Sym::O, _) => "wrong-origin-measured",
+                (Sym::A, _) | (Sym::P, _) => "foreign-address-measured",
+                (Sym::L, _) => "late-answer-measured",
+                (Sym::D | Sym::S | Sym::R | Sym::U, _) => "kiss-measured",
+                (Sym::N, _) => "measurement-without-answer",
+                _ => "usable-answer-not-measured",
+            };
+            v.find(
+                "C08",
+                class,
+                format!("{at}: {} measurement calls reached the controller, expected {want_calls}", o.meas.len()),
+            );
+        } else if usable {
+            v.tag("measurement.pair-delivered");
+            let sent = o.sent.first();
+            let (out, inc) = (&o.meas[0], &o.meas[1]);
+            let serial = sent.map(|s| s.serial).unwrap_or(0);
+            let want_recv = NtpTimestamp::from_seconds_nanos_since_ntp_era(RECV_BASE + serial, 0);
+            let want_xmit = NtpTimestamp::from_seconds_nanos_since_ntp_era(XMIT_BASE + serial, 0);
+            let mut bad = Vec::new();
+            if out.sender_id != ClockId::SYSTEM || Some(out.receiver_id) != obs.index {
+                bad.push("outgoing ids".to_string());
+            }
+            if inc.receiver_id != ClockId::SYSTEM || inc.sender_id != out.receiver_id {
+                bad.push("incoming ids".to_string());
+            }
+            if out.receiver_ts != want_recv {
+                bad.push("server receive time stamp is not the one of this answer".to_string());
+            }
+            if inc.sender_ts != want_xmit {
+                bad.push("server transmit time stamp is not the one of this answer".to_string());
+            }
+            match cfg.ts {
+                Ts::Sw | Ts::Kr => {
+                    if out.sender_ts != SeqClock::reading(req.clock_k) {
+                        bad.push(format!(
+                            "send time stamp is not the clock reading #{} taken when this request was sent",
+                            req.clock_k
+                        ));
+                    }
+                }
+                Ts::Ka => {
+                    if !real_ts_ok(out.sender_ts, o.real_before, o.real_after) {
+                        bad.push("kernel send time stamp outside the step's real-time window".to_string());
+                    }
+                }
+            }
+            match cfg.ts {
+                Ts::Sw => {
+                    if inc.receiver_ts != SeqClock::reading(req.clock_k.wrapping_add(1)) {
+                        bad.push("receive time stamp is not the clock reading taken when this answer arrived".to_string());
+                    }
+                }
+                Ts::Kr | Ts::Ka => {
+                    if o.unstamped == 0 && !real_ts_ok(inc.receiver_ts, o.real_before, o.real_after) {
+                        bad.push("kernel receive time stamp outside the step's real-time window".to_string());
+                    }
+                }
+            }
+            if !bad.is_empty() {
+                v.find("C08", "measurement-not-of-this-exchange", format!("{at}: {}", bad.join("; ")));
+            }
+        } else {
+            v.tag(&format!("ignored.{}", sym.ch()));
+        }
+        // ---- C11 / C08 / C10: published state
+        match &o.snap {
+            None => v.find("C11", "snapshot-missing", format!("{at}: no published state for a live source")),
+            Some((missed, sp, addr)) => {
+                if ever {
+                    let want = since.min(8);
+                    if *missed != want {
+                        let prop = if matches!(sym, Sym::W | Sym::O | Sym::A | Sym::P | Sym::L) { "C08" } else { "C11" };
+                        v.find(
+                            prop,
+                            "missed-polls",
+                            format!("{at}: published missed polls {missed}, polls since the last usable answer {want}"),
+                        );
+                        if prop == "C08" {
+                            v.find("C11", "missed-polls", format!("{at}: published missed polls {missed}, want {want}"));
+                        }
+                    } else {
+                        v.tag(match want {
+                            0 => "missed.0",
+                            1..=3 => "missed.1-3",
+                            4..=7 => "missed.4-7",
+                            _ => "missed.8",
+                        });
+                    }
+                } else {
+                    v.tag("missed.before-first-answer-not-judged");
+                }
+                if *sp != p {
+                    v.find("C10", "snapshot-poll", format!("{at}: published poll exponent {sp}, on the wire {p}"));
+                }
+                if addr.is_empty() {
+                    v.machinery.push("empty address in snapshot".to_string());
+                }
+            }
+        }
+        if o.snap_foreign_entries > 0 {
+            v.find("C11", "snapshot-foreign-entry", format!("{at}: {} entries under other ids", o.snap_foreign_entries));
+        }
+        // ---- C09 at daemon level: a KISS never ends the task by itself
+        if matches!(sym, Sym::D | Sym::S) {
+            v.tag("kiss.deny-or-rstr-to-plain-source");
+        }
+    }
+    if !ended && v.findings.is_empty() {
+        // every script ends with TAIL silent polls, so the source must have given up
+        v.find(
+            "C11",
+            "missing-reset",
+            format!("{} polls, {} since the last usable answer: the source never gave up", polls, since),
+        );
+    }
+    v
+}
+
+/// Canonical, run-independent text of an observation (random identifiers, jitter and real time
+/// are reduced to what the statements speak about).
+pub(super) fn obs_text(case: &Case, obs: &CaseObs) -> String {
+    let mut s = String::new();
+    let mut one = |o: &StepObs, s: &mut String| {
+        match &o.req {
+            Some(r) => s.push_str(&format!("v{}m{}p{}{}", r.version, r.mode, r.poll, if r.marker { "u" } else { "" })),
+            None => s.push('-'),
+        }
+        for d in &o.resets {
+            let p = o.req.as_ref().map(|r| r.poll).unwrap_or(0);
+            let unit = two_pow_ns(p);
+            let ns = d.as_nanos();
+            s.push_str(if ns < unit * 101 / 100 {
+                " t<"
+            } else if ns > unit * 105 / 100 + unit / 1_000_000_000 + 1 {
+                " t>"
+            } else {
+                " t="
+            });
+        }
+        s.push_str(&format!(" m{}", o.meas.len()));
+        match &o.snap {
+            Some((missed, p, _)) => s.push_str(&format!(" s{missed}/{p}")),
+            None => s.push_str(" s-"),
+        }
+        for m in &o.msgs {
+            s.push_str(&format!(" !{}", m.code()));
+        }
+        if o.finished {
+            s.push_str(" end");
+        }
+        if o.extra_datagrams + o.odd_datagrams > 0 {
+            s.push_str(&format!(" x{}", o.extra_datagrams + o.odd_datagrams));
+        }
+        if let Some(st) = &o.stuck {
+            s.push_str(&format!(" STUCK({st})"));
+        }
+        if let Some(p) = &o.panicked {
+            s.push_str(&format!(" PANIC({p})"));
+        }
+    };
+    s.push_str(&case.trace());
+    s.push_str(" => ");
+    for (i, o) in obs.steps.iter().enumerate() {
+        if i > 0 {
+            s.push_str(" | ");
+        }
+        let sym = case.script.get(i).copied().unwrap_or(Sym::N);
+        s.push(sym.ch());
+        s.push(':');
+        one(o, &mut s);
+    }
+    s.push_str(" || after:");
+    for o in &obs.epilogue {
+        s.push(' ');
+        one(o, &mut s);
+        s.push(';');
+    }
+    s
+}
+
+// =======================================================================================
+// enumeration driver shared by the four modules
+// =======================================================================================
+
+/// All words of exactly `len` symbols over `alphabet` (shorter scripts are prefixes: every
+/// script is followed by silent polls anyway).
+pub(super) fn cases_for(cfgs: &[Cfg], alphabet: &[Sym], len: usize) -> Vec<(Cfg, Vec<Sym>, u64)> {
+    cfgs.iter()
+        .map(|c| {
+            let a: Vec<Sym> = alphabet.iter().copied().filter(|s| s.applies(c.ver)).collect();
+            let n = common::pow(a.len(), len);
+            (*c, a, n)
+        })
+        .collect()
+}
+
+pub(super) struct Plan {
+    pub cfg: Cfg,
+    pub alphabet: Vec<Sym>,
+    pub len: usize,
+}
+
+/// Run every script of every plan against a fresh real task, judge it, and report the findings
+/// that belong to `prop` (findings of the sibling properties are counted, not reported here:
+/// their own modules report them).
+pub(super) fn explore(ctx: &Ctx, prop: &'static str, plans: &[Plan]) {
+    let mut offsets = Vec::new();
+    let mut total = 0u64;
+    for p in plans {
+        offsets.push(total);
+        total += common::pow(p.alphabet.len(), p.len);
+    }
+    ctx.set("cases_planned", total);
+    let tally: Mutex<BTreeMap<String, u64>> = Mutex::new(BTreeMap::new());
+    let states: Mutex<std::collections::HashSet<u64>> = Mutex::new(Default::default());
+    let behaviours: Mutex<std::collections::HashSet<u64>> = Mutex::new(Default::default());
+    let failed_workers = AtomicU64::new(0);
+    common::par_for_with(
+        total,
+        8,
+        || match Worker::new() {
+            Ok(w) => Some(w),
+            Err(e) => {
+                if failed_workers.fetch_add(1, Ordering::SeqCst) == 0 {
+                    ctx.cap_hit(&format!("worker could not start: {e}"));
+                }
+                None
+            }
+        },
+        |w, idx| {
+            let Some(w) = w.as_mut() else {
+                ctx.inc("cases_not_run");
+                return;
+            };
+            let pi = offsets.partition_point(|o| *o <= idx) - 1;
+            let plan = &plans[pi];
+            let word = common::word_of(idx - offsets[pi], plan.alphabet.len(), plan.len);
+            let case = Case { cfg: plan.cfg, script: word.iter().map(|i| plan.alphabet[*i]).collect() };
+            let obs = w.run(&case);
+            let verdict = judge(&case, &obs);
+            report(ctx, prop, idx, &case, &obs, &verdict, &tally, &states, &behaviours);
+        },
+    );
+    let t = tally.into_inner().unwrap();
+    for (k, n) in &t {
+        ctx.set(k, *n);
+    }
+    ctx.set("states", states.into_inner().unwrap().len() as u64);
+    ctx.set("distinct_behaviours", behaviours.into_inner().unwrap().len() as u64);
+    if failed_workers.load(Ordering::SeqCst) > 0 || ctx.get("cases_not_run") > 0 || ctx.get("machinery_notes") > 0 {
+        ctx.exhaustive(false);
+    } else {
+        ctx.exhaustive(ctx.get("evaluations") == total);
+    }
+}
+
+pub(super) fn report(
+    ctx: &Ctx,
+    prop: &'static str,
+    idx: u64,
+    case: &Case,
+    obs: &CaseObs,
+    verdict: &Verdict,
+    tally: &Mutex<BTreeMap<String, u64>>,
+    states: &Mutex<std::collections::HashSet<u64>>,
+    behaviours: &Mutex<std::collections::HashSet<u64>>,
+) {
+    ctx.inc("evaluations");
+    ctx.add("transitions", verdict.transitions);
+    let text = obs_text(case, obs);
+    ctx.distinct(common::hash_of(&text));
+    // behaviours: the same observation without the script letters and the configuration
+    let behaviour: String = text.split(" => ").nth(1).unwrap_or("").split(" | ").map(|s| s.get(2..).unwrap_or("")).collect::<Vec<_>>().join("|");
+    behaviours.lock().unwrap().insert(common::hash_of(&behaviour));
+    if idx % 4093 == 17 {
+        ctx.sample(text.clone());
+    }
+    {
+        let mut t = tally.lock().unwrap();
+        for (k, n) in &verdict.tags {
+            *t.entry(format!("reached.{k}")).or_insert(0) += n;
+        }
+        *t.entry("polls_on_the_wire".to_string()).or_insert(0) += obs.steps.iter().filter(|s| s.req.is_some()).count() as u64;
+        *t.entry("answers_sent".to_string()).or_insert(0) += obs.steps.iter().map(|s| s.sent.len() as u64).sum::<u64>();
+        *t.entry("sentinels".to_string()).or_insert(0) += obs.steps.iter().filter(|s| s.req.is_some()).count() as u64;
+        for f in &verdict.findings {
+            if f.prop != prop {
+                *t.entry(format!("sibling_findings.{}", f.prop)).or_insert(0) += 1;
+            }
+        }
+    }
+    {
+        let mut s = states.lock().unwrap();
+        for h in &verdict.states {
+            s.insert(*h);
+        }
+    }
+    for m in &verdict.machinery {
+        ctx.inc("machinery_notes");
+        if ctx.get("machinery_notes") <= 3 {
+            ctx.cap_hit(&format!("machinery: {m} [{}]", case.trace()));
+        }
+    }
+    for f in &verdict.findings {
+        if f.prop == prop {
+            ctx.violation(&f.class, format!("{} [{}]", f.what, text), case.trace());
+        }
+    }
+}
+
+/// `--replay`: run exactly this trace on a fresh worker, report what the module's own property
+/// says about it, return the canonical observation.
+pub(super) fn replay_case(ctx: &Ctx, prop: &'static str, trace: &str) -> String {
+    let Some(case) = Case::parse(trace) else {
+        return format!("unparsable trace {trace:?} (want e.g. v4;4-10;kr;VNDR)");
+    };
+    let mut w = match Worker::new() {
+        Ok(w) => w,
+        Err(e) => return format!("worker: {e}"),
+    };
+    let obs = w.run(&case);
+    let verdict = judge(&case, &obs);
+    for f in &verdict.findings {
+        if f.prop == prop {
+            ctx.violation(&f.class, f.what.clone(), case.trace());
+        }
+    }
+    let mut text = obs_text(&case, &obs);
+    for f in &verdict.findings {
+        text.push_str(&format!(" ## {}", f.class));
+    }
+    text
+}
+
+pub(super) fn common_assumptions(ctx: &Ctx) {
+    ctx.assume("loopback UDP delivers datagrams to one socket in the order they were sent; the sentinel (a short datagram the task ignores but logs) therefore proves that every earlier datagram has been consumed by the task or dropped by the kernel");
+    ctx.assume("the task's tracing events 'wait completed', 'accept packet' and 'received packet is too small' exist (they delimit the steps; if they are removed the rig reports task-stuck, not a verdict about the property)");
+    ctx.assume("tokio's clock is paused: the duration handed to the poll timer is read as deadline - now exactly; the harness then advances virtual time by that duration before it fires the timer");
+    ctx.assume("plain (non-NTS) sources only: SourceNtsData cannot be constructed from the ntpd crate without a real key exchange; NTS sources are covered at library level (ntp_proto c09, c13)");
+    ctx.assume("the recording controller always desires the configured minimum poll interval; the real Kalman filter's desire is ntp_proto c10 part B");
+}
+
+// =======================================================================================
+// C11
+// =======================================================================================
+
+fn replay(ctx: &Ctx, trace: &str) -> String {
+    replay_case(ctx, "C11", trace)
+}
+
+pub(super) fn cfg(ver: Ver, min: i8, max: i8, ts: Ts) -> Cfg {
+    Cfg { ver, min, max, ts }
+}
+
+#[test]
+fn check() {
+    let ctx = Ctx::new("C11");
+    if let Some(t) = common::replay_trace() {
+        let a = replay(&ctx, &t);
+        let b = replay(&ctx, &t);
+        common::report_replay("C11", &a, &b, ctx.violation_count() > 0);
+        return;
+    }
+    ctx.rule("every script of exactly n poll reactions (shorter scripts are their prefixes: silence follows anyway) over the alphabet {N no answer, V valid, W valid twice, O wrong origin, D DENY, A valid from another address, L late valid} played by a scripted UDP server against the real SourceTask::run (fresh task per script), followed by silent polls until the task gives up; a case is distinct if its canonical observation (requests on the wire, timer class, measurements, published state, messages, end of task) differs");
+    common_assumptions(&ctx);
+    let quick = ctx.quick();
+    // reachability needs depth more than breadth: a reduced alphabet, longer scripts
+    let alpha = vec![Sym::N, Sym::V, Sym::W, Sym::O, Sym::D, Sym::A, Sym::L];
+    let mut plans = Vec::new();
+    let len = if quick { 5 } else { 7 };
+    for (c, l) in [
+        (cfg(Ver::V4, 4, 10, Ts::Kr), len),
+        (cfg(Ver::V4, 4, 4, Ts::Sw), len),
+        (cfg(Ver::V5, 4, 10, Ts::Kr), len - 1),
+        (cfg(Ver::Auto, 4, 10, Ts::Ka), len - 1),
+    ] {
+        plans.push(Plan { cfg: c, alphabet: alpha.iter().copied().filter(|s| s.applies(c.ver)).collect(), len: l });
+    }
+    // all answered/unanswered patterns, long enough for the eight-missed rule inside the script
+    plans.push(Plan { cfg: cfg(Ver::V4, 4, 10, Ts::Kr), alphabet: vec![Sym::N, Sym::V], len: if quick { 12 } else { 16 } });
+    plans.push(Plan { cfg: cfg(Ver::Auto, 4, 10, Ts::Kr), alphabet: vec![Sym::N, Sym::V, Sym::D], len: if quick { 7 } else { 10 } });
+    plans.push(Plan { cfg: cfg(Ver::V5, 4, 10, Ts::Sw), alphabet: vec![Sym::N, Sym::V, Sym::D], len: if quick { 7 } else { 10 } });
+    explore(&ctx, "C11", &plans);
+    ctx.finish();
+}
